@@ -42,6 +42,89 @@ def is_npos(e):
     return e is not None and e['k'] == 'DeclRefExpr' and e.get('n') == 'npos'
 
 
+def is_trim_call(unit, e):
+    e = strip(e)
+    # a copy/move construction or conversion of the call result
+    while e is not None and e['k'] in ('CXXConstructExpr', 'CXXTemporaryObjectExpr') and len(e.get('args', [])) == 1:
+        e = strip(e['args'][0])
+    return e is not None and e['k'] == 'CallExpr' and (e.get('q') or '').split('::')[-1] == 'trim' and e.get('inrepo')
+
+
+def trim_preserving_helper(unit, call, argi):
+    """an in-repo function that leaves the reference parameter argi trimmed: its body assigns `p = trim(..)` and
+    nothing modifies p afterwards"""
+    g = unit.by_decl.get(call.get('cd'))
+    if g is None or g.body is None or argi >= len(g.params):
+        return False
+    pd = g.params[argi]['d']
+    from .prov import assignments
+    last = None
+    for lhs, rhs, an in assignments(g):
+        l = strip(lhs)
+        if l is not None and l['k'] == 'DeclRefExpr' and l.get('d') == pd:
+            last = rhs
+    return last is not None and is_trim_call(unit, last)
+
+
+def check_trim(unit, fn, em):
+    from .prov import assignments
+    vt = var_table(fn)
+    for n in fn.walk():
+        obj = None
+        if n['k'] == 'CXXMemberCallExpr' and method_name(n) == 'empty' and is_node(n.get('obj')):
+            obj = strip(n['obj'])
+        elif n['k'] == 'CXXOperatorCallExpr' and n.get('op') in ('==', '!=') and len(n.get('args', [])) == 2:
+            a, b = strip(n['args'][0]), strip(n['args'][1])
+            for x, y in ((a, b), (b, a)):
+                if y is not None and y['k'] == 'StringLiteral' and y.get('v', None) == '':
+                    obj = x
+        if obj is None or 'basic_string<char' not in unit.ty(obj):
+            continue
+        txt = unit.text(n, 60)
+        if obj['k'] == 'DeclRefExpr' and obj.get('d') in vt:
+            v = vt[obj['d']]
+            srcs = local_sources(fn, obj['d'])
+            if v['kind'] == 'rangevar':
+                srcs = [s for s in srcs if s is not v['node'].get('range')]
+                if not srcs:
+                    em.unknown(n, txt, 'element of a container, not re-assigned', 'TRIM')
+                    continue
+            if v['kind'] in ('param', 'lparam') and not srcs:
+                em.unknown(n, txt, 'parameter tested as received', 'TRIM')
+                continue
+            bad = [s for s in srcs if not is_trim_call(unit, s)]
+            # in-place modification through a non-const reference: only by helpers that leave it trimmed
+            for c in fn.calls():
+                pk = c.get('pk') or ''
+                for i, a in enumerate(c.get('args') or []):
+                    sa = strip(a)
+                    if sa is not None and sa['k'] == 'DeclRefExpr' and sa.get('d') == obj['d'] and i < len(pk) and pk[i] == 'r':
+                        if not (c.get('inrepo') and trim_preserving_helper(unit, c, i)):
+                            bad.append(c)
+            if not srcs:
+                em.unknown(n, txt, 'no source of the tested string found', 'TRIM')
+            elif bad:
+                em.violation(n, txt, '`%s` can hold untrimmed input text here (from `%s`): blank-only content such as "( )" counts as content, while the serializer never writes it — parse(serialize(d)) differs from d' % (
+                    v['decl'].get('n'), unit.text(bad[0], 40)), 'TRIM')
+            else:
+                em.ok(n, txt, 'tested after trim()', 'TRIM')
+        elif obj['k'] == 'CXXOperatorCallExpr' and obj.get('op') == '[]' and obj.get('args'):
+            base = strip(obj['args'][0])
+            ok = False
+            if base is not None and base['k'] == 'DeclRefExpr':
+                for lp in fn.walk():
+                    if lp['k'] == 'CXXForRangeStmt' and (strip(lp.get('range')) or {}).get('d') == base.get('d'):
+                        vd = lp['var']['d']
+                        for lhs, rhs, an in assignments(fn):
+                            l = strip(lhs)
+                            if l is not None and l.get('d') == vd and is_trim_call(unit, rhs):
+                                ok = True
+            if ok:
+                em.ok(n, txt, 'every element was replaced by its trim() in a preceding loop', 'TRIM')
+            else:
+                em.unknown(n, txt, 'element of a container whose elements are not known to be trimmed', 'TRIM')
+
+
 def run(unit, em):
     ser_words, parse_words = None, None
     for fn in unit.functions:
@@ -141,6 +224,10 @@ def run(unit, em):
             parse_words = (fn, [n['v'] for n in fn.walk() if n['k'] == 'StringLiteral' and 'v' in n])
         if short in ('SymbolicVarAsgn::ToString',):
             pass
+    # ---- TRIM: in the parser, emptiness of input text is decided on trimmed text
+    for fn in unit.functions:
+        if fn.body is not None and 'timbuk_parser-nobison.cc' in fn.file:
+            check_trim(unit, fn, em)
     # ---- WS: one notion of whitespace across the parser's helpers (trim / read_word / contains_whitespace)
     classes = {}
     for fn in unit.functions:
